@@ -93,6 +93,8 @@ CHECKS["C05"]["text"] += " Added: style objects moved between reloaded workbooks
 CHECKS["C06"]["text"] += " Added: every ordered pair (loaded kind, kind added after a reload, on the same or another sheet), and sheet removal by name / of a middle sheet."
 CHECKS["C08"]["text"] += " Added: reversed-corner ranges, shared-formula groups whose children hold only view text, defined names and chart series as reference carriers."
 CHECKS["C17"]["text"] += " Added clause: Worksheet::set_style_by_range as a public consumer of whole-row / whole-column range corners."
+for _c in ("C14","C15","C17","C18","C19","C20"):
+    CHECKS[_c]["text"] += " Every case space is also run in DESCENDING case order (spaces named <id>~rev; quick tier of C18/C19: all but the largest space), so that library code with process-wide state (caches, memo tables, statics) meets every case after a different predecessor."
 ENGINES=[
  {"name":"E4","path":"harness/src/c13.rs","serves_properties":["C13"],"kind_free_text":"fault and kill-point enumerator: failing io::Write sink, RLIMIT_FSIZE per byte in forked children, strace -e inject error/SIGKILL per syscall index"},
  {"name":"E2","path":"harness/src/e2.rs","serves_properties":["C04","C07","C08","C10","C11","C12"],"kind_free_text":"explicit-state breadth-first explorer over real library objects cloned per node, lock-step reference model / invariant per transition, run inside pool cases (hang/crash attribution)"},
